@@ -260,10 +260,18 @@ func (e *Engine) makeIface(st *State, v Value, t types.Type) *Term {
 	if _, ok := t.Underlying().(*types.Interface); ok {
 		return v.(*Term)
 	}
+	if _, ok := v.(*FuncV); ok {
+		// a function value boxed in an interface: only its dynamic type is tracked
+		v = &OpaqueV{Why: "function value in interface"}
+	}
 	if _, ok := v.(*OpaqueV); ok {
 		h := Fresh("iface", IfaceSrt)
 		st.Assume(Eq(ifaceTag(h), e.typeTag(t)))
 		return h
+	}
+	if gp, ok := v.(*PtrV); ok && gp.Kind == PGlobal {
+		// pointer to a package-level variable: its fixed address
+		v = globalRef(gp.Glob)
 	}
 	key := typeKey(t)
 	ls := leaves(v)
